@@ -17,6 +17,12 @@ CLAIMED["C04"] = dict(
     technique="CBMC function contracts (dfcc) on mechanically extracted C of the instantiated C++ templates, cvc5 back end",
     ref="6/C04")
 
+CLAIMED["C18"] = dict(
+    text="Proof: rand48Next, nrand48, erand48, lrand48, drand48, srand48 and the Rand32/Rand48 members are extracted from ImathRandom.cpp/.h on every run and checked against contracts written from the POSIX drand48(3) text: successor state X' = (0x5DEECE66D X + 0xB) mod 2^48 for all 2^48 states (frame = the three state words), nrand48 = X'>>17, erand48 in [0,1) and within 2^-48 of X'/2^48, srand48 seeding; Rand32 LCG step, nextb/nexti/nextf ranges and values; Rand48 members forward to the C functions (callee contracts only); determinism lemma from the contracts.",
+    note="Trusted: clang AST + cxx2c (differentially validated), cbmc 6.11, cvc5, minisat. erand48/Rand32::nextf contracts are discharged as two views (value on SAT, state on cvc5 with slicing) plus a composition lemma. Sphere/Gauss samplers and nextf(a,b) interval are not covered; libc is not executed - the POSIX text is the spec.",
+    technique="CBMC function contracts (dfcc, enforce + replace-call-with-contract) on extracted C, cvc5/SAT back ends, full state space",
+    ref="6/C18")
+
 NA = {
 }
 
